@@ -12,8 +12,7 @@ GivenV == {}
 # implementation patches reach TLC as JSON (arrays become tuples): a module literal of that size takes SANY longer than the check itself
 MC_GIVEN = """---- MODULE UniDiffGiven ----
 EXTENDS UniDiff, Json, IOUtils
-GivenRaw == JsonDeserialize(IOEnv.GIVEN_FILE)
-GivenV == {GivenRaw[k] : k \\in DOMAIN GivenRaw}
+GivenV == LET raw == JsonDeserialize(IOEnv.GIVEN_FILE) IN {raw[k] : k \\in DOMAIN raw}   \\* LET: the file is read once
 ====
 """
 CFG = """SPECIFICATION Spec
@@ -21,6 +20,7 @@ CONSTANTS Alphabet = {1, 2, 3}
  MaxLines = %(lines)d
  Contexts = {0, 1, 2, 3}
  Mode = "%(mode)s"
+ AllBelow = %(allbelow)d
  CanonA = %(canon)s
  Given <- GivenV
 INVARIANT ApplyRevertExact
@@ -35,6 +35,7 @@ CONSTANTS Alphabet = {1, 2, 3}
  MaxLines = 0
  Contexts = {0}
  Mode = "given"
+ AllBelow = 0
  CanonA = FALSE
  Given <- GivenV
 INVARIANT GivenValid
@@ -244,15 +245,39 @@ def protocol_clause(ctx, a, b, n, pool, kind):
     return True
 
 
-def enumerate_and_replay(ctx, mode, lines, canon, name, entries, seen_pairs, impl_diffs=True, coverage=True):
+def vacuity(outs, name):
+    """the exported runs exercise every kind of patch line, several hunks, both directions (used where -coverage is too slow)"""
+    need = {'empty patch', 'two hunks', 'noeol', 'ctx', 'del', 'ins', 'forward', 'reverse', 'zero-length old range', 'zero-length new range'}
+    for _, a, b, n, rev, patch, target in outs:
+        need.discard('reverse' if rev else 'forward')
+        if not patch:
+            need.discard('empty patch')
+        hdrs = [ln for ln in patch if ln[0] == 'hdr']
+        if len(hdrs) > 1:
+            need.discard('two hunks')
+        for ln in hdrs:
+            if ln[2] == 0:
+                need.discard('zero-length old range')
+            if ln[4] == 0:
+                need.discard('zero-length new range')
+        for ln in patch:
+            need.discard(ln[0])
+        if not need:
+            return
+    raise MachineryError('vacuity: %s never exercised: %s' % (name, sorted(need)))
+
+
+def enumerate_and_replay(ctx, mode, lines, canon, name, entries, seen_pairs, allbelow=0, impl_diffs=True, coverage=True):
     gen = {'UniDiffMC': MC}
-    r = ctx.tlc('UniDiffMC', CFG % dict(lines=lines, mode=mode, canon='TRUE' if canon else 'FALSE'), gen=gen, name=name, timeout=3000, coverage=coverage, workers=WORKERS)
+    r = ctx.tlc('UniDiffMC', CFG % dict(lines=lines, mode=mode, allbelow=allbelow, canon='TRUE' if canon else 'FALSE'), gen=gen, name=name, timeout=3000,
+                coverage=coverage, workers=WORKERS)
     ctx.require_no_violation(r, name)
     if coverage:
         ctx.require_coverage(r, ['Make', 'Header', 'Hunk', 'Line', 'NoEol', 'EndHunk', 'Finish'])
     outs = [v for v in r.printed if v[0] == 'OUT']
     if not outs:
         raise MachineryError('no completed runs exported by ' + name)
+    vacuity(outs, name)
     nproto = 0
     for _, a, b, n, rev, patch, target in outs:
         h = _h((a, b, n)) + ctx.seed
@@ -311,14 +336,14 @@ def run(ctx):
                        'a diff produced for context n is only required to be a valid diff; the amount of context is not compared']
     entries = {}
     seen = set()
-    # (script mode, max lines, old text up to renaming, name, also exercise make_patch on these pairs, -coverage)
+    # (script mode, max lines, old text up to renaming, name, all scripts for texts up to this many lines, also exercise make_patch on these pairs, -coverage)
     if ctx.quick:
-        plan = [('canon', 3, True, 'UniDiff_canon', True, False), ('all', 2, True, 'UniDiff_all', False, True)]
+        plan = [('canon', 3, True, 'UniDiff_canon', 2, True, False)]
     else:
-        plan = [('canon', 4, True, 'UniDiff_canon', True, False), ('all', 3, True, 'UniDiff_all', False, True), ('min', 3, False, 'UniDiff_min', True, False)]
+        plan = [('canon', 4, True, 'UniDiff_canon', 2, True, True), ('all', 3, True, 'UniDiff_all', 0, False, True), ('min', 3, False, 'UniDiff_min', 0, True, True)]
     tot = totp = 0
-    for mode, lines, canon, name, impl_diffs, cov in plan:
-        k, kp = enumerate_and_replay(ctx, mode, lines, canon, name, entries, seen, impl_diffs, cov)
+    for mode, lines, canon, name, allbelow, impl_diffs, cov in plan:
+        k, kp = enumerate_and_replay(ctx, mode, lines, canon, name, entries, seen, allbelow, impl_diffs, cov)
         tot += k
         totp += kp
     ents = [(a, b, n, p, info) for (a, b, n, p), info in entries.items()]
